@@ -1,5 +1,7 @@
 package main
 
+import "database/sql"
+
 // Hand-written struct witnesses of the recorded builder findings (ids referenced from /verif/known_findings.json).
 // decl / expect are the same S-expressions `harness structgen` writes for generated structs.
 
@@ -37,6 +39,16 @@ type WEmbIdx struct {
 	ID    int          `sql:"primary_key"`
 	Audit WEmbIdxInner `sql:"embedded_prefix:audit_"`
 }
+
+// seeded change C06-l: non-nil pointers whose target is not a primitive: sql.Null*, another pointer
+type WPtrDeep struct {
+	ID int `sql:"primary_key"`
+	NS *sql.NullString
+	NI *sql.NullInt64
+	PP **string
+}
+
+func ptrPtrString() **string { p := ptrString(); return &p }
 
 // seeded change C10-k: value-carrying tag keys written in camelCase with upper-case letters in their values
 type WCamelInner struct {
@@ -89,6 +101,10 @@ var witnessCases = []structCase{
 	{id: "wst-index-in-prefixed-embedded", cfg: my, obj: WEmbIdx{},
 		decl:   `(decl "WEmbIdx" "" ((field "ID" int "int" "primary_key") (field "Audit" (struct ((field "Code" string "string" "index_type:hash") (field "Zone" string "string" "index"))) "WEmbIdxInner" "embedded_prefix:audit_")))`,
 		expect: `(expect "w_emb_idx" ((col "id" "INT" ("pk") true) (col "audit_code" "TEXT" () false) (col "audit_zone" "TEXT" () false)) ((idx "idx_audit_code" ("audit_code") false "HASH") (idx "idx_audit_zone" ("audit_zone") false "")) () ())`},
+	{id: "wst-pointers-to-null-types-and-pointers", cfg: my,
+		obj:    WPtrDeep{NS: &sql.NullString{String: "x", Valid: true}, NI: &sql.NullInt64{Int64: 1, Valid: true}, PP: ptrPtrString()},
+		decl:   `(decl "WPtrDeep" "" ((field "ID" int "int" "primary_key") (field "NS" (ptrTo nullString) "*sql.NullString" "") (field "NI" (ptrTo nullInt64) "*sql.NullInt64" "") (field "PP" (ptrTo (ptrTo string)) "**string" "")))`,
+		expect: `(expect "w_ptr_deep" ((col "id" "INT" ("pk") true) (col "ns" "TEXT" ("null") false) (col "ni" "BIGINT" ("null") false) (col "pp" "TEXT" ("null") false)) () () ())`},
 	{id: "wst-camel-keys-upper-values", cfg: my, obj: WCamelVals{},
 		decl:   `(decl "WCamelVals" "" ((field "ID" int "int" "primaryKey") (field "Audit" (struct ((field "Code" string "string" "indexType:HASH") (field "Zone" string "string" "index"))) "WCamelInner" "embeddedPrefix:Aud_")))`,
 		expect: `(expect "w_camel_vals" ((col "id" "INT" ("pk") true) (col "Aud_code" "TEXT" () false) (col "Aud_zone" "TEXT" () false)) ((idx "idx_Aud_code" ("Aud_code") false "HASH") (idx "idx_Aud_zone" ("Aud_zone") false "")) () ())`},
